@@ -764,6 +764,7 @@ COPIES = ["copy", "copy.copy", "copy.deepcopy", "pickle", "pickle0", "copy-of-co
 @st.composite
 def copy_cases(draw):
     return {"ctor": draw(cosmologies()), "how": draw(st.sampled_from(COPIES)),
+            "before": draw(st.sampled_from(["nothing", "distances", "extract_parms", "extract_parms"])),
             "pairs": draw(st.lists(zpair(), min_size=1, max_size=2))}
 
 
@@ -774,6 +775,17 @@ def check_copies(case, ctx):
     import esutil.cosmology as _ec
     other = _ec.Cosmo(omega_m=0.9, omega_l=0.3, omega_k=-0.2, flat=False, H0=42.0)
     other.sigmacritinv(0.3, 0.8)
+    # ... and the object itself was used: distances evaluated, its public parameter-normalisation helper asked
+    # about some other parameter set
+    rc0 = reported(c)
+    if case.get("before") == "distances":
+        must(c.Da, 0.1, [0.5, 1.5])
+        must(c.V, 0.0, 1.0)
+    elif case.get("before") == "extract_parms":
+        must(c.extract_parms, 0.9, 0.3, -0.2, False)
+        must(c.extract_parms, 0.25, None, None, True)
+        require(reported(c) == rc0, "extract_parms() (a query) changed what the object reports: %r -> %r", rc0,
+                reported(c))
     how = case["how"]
     if how == "copy":
         d = must(c.copy)
@@ -804,7 +816,7 @@ def check_copies(case, ctx):
 
 
 def classify_copies(case):
-    return classify_cosmo(case) + ["how:" + case["how"]]
+    return classify_cosmo(case) + ["how:" + case["how"], "used-before-copy:" + case.get("before", "nothing")]
 
 
 def selftest():
